@@ -30,6 +30,11 @@ Step == /\ st.rep # "none" /\ Len(hist) < Depth
                 /\ InRange(r2, w) /\ DoCmp(st, r2, ui, w).ok
                 /\ st' = st
                 /\ hist' = Append(hist, Ev("CmpLit", [rep |-> r2, unit |-> UnitsW[ui][1], v |-> ToDec(w), ord |-> DoCmp(st, r2, ui, w).ord], st'))
+           \/ \E r2 \in {RandomElement({x \in RepsW : Signed(x) = Signed(st.rep)})}, ui \in {RandomElement(1..Len(UnitsW))}, w \in {PickVal} :
+                /\ InRange(r2, w) /\ DoMod(st, r2, ui, w).ok
+                /\ st' = DoMod(st, r2, ui, w).st
+                /\ hist' = Append(hist, Ev("ModLit", [rep |-> r2, unit |-> UnitsW[ui][1], v |-> ToDec(w)], st'))
+           \/ \E k \in {RandomElement(KsW)} : DoDivInt(st, k).ok /\ st' = DoDivInt(st, k).st /\ hist' = Append(hist, Ev("DivInt", [k |-> k], st'))
            \/ \E k \in {RandomElement(KsW)} : DoMul(st, k).ok /\ st' = DoMul(st, k).st /\ hist' = Append(hist, Ev("MulInt", [k |-> k], st'))
            \/ DoNeg(st).ok /\ st' = DoNeg(st).st /\ hist' = Append(hist, Ev("Neg", [x |-> 0], st'))
 Next == Make \/ Step
